@@ -158,6 +158,22 @@ func fillArg(name string, pt reflect.Type, dflt any, sel int, rel any) (reflect.
 				return []reflect.Value{reflect.ValueOf(b)}
 			}), true
 		case pt.NumIn() == 1 && pt.NumOut() == 1 && pt.Out(0) == pt.In(0):
+			if sel == 7 {
+				// a nil-FILLING overwrite (`func(p *string) *string { if p == nil { return &dflt }; return p }`): the one kind of
+				// check whose effect on an accepted nil is observable since /repo 7db47f1 (seeded/C09)
+				dv, ok := conv(dflt, pt.In(0))
+				switch pt.In(0).Kind() {
+				case reflect.Pointer, reflect.Interface, reflect.Map, reflect.Slice:
+				default:
+					ok = false
+				}
+				return reflect.MakeFunc(pt, func(a []reflect.Value) []reflect.Value {
+					if ok && isNilLike(a[0]) {
+						return []reflect.Value{dv}
+					}
+					return []reflect.Value{a[0]}
+				}), true
+			}
 			return reflect.MakeFunc(pt, func(a []reflect.Value) []reflect.Value { return []reflect.Value{a[0]} }), true
 		}
 		return reflect.Value{}, false
@@ -427,10 +443,10 @@ func (h hop) tok() string {
 // family abstracts how schemas of one type are built, derived and fed.
 type family struct {
 	ty     string
-	mk     []func() any                                 // the relatives A, B, …
-	mkTok  []string                                     // how they were built
-	fresh  func(like any) (any, bool)                   // a new, never parsed, plain schema of the same Go type
-	chain  func(s any, st step, rel any) (any, bool)    // one derivation step
+	mk     []func() any                                  // the relatives A, B, …
+	mkTok  []string                                      // how they were built
+	fresh  func(like any) (any, bool)                    // a new, never parsed, plain schema of the same Go type
+	chain  func(s any, st step, rel any) (any, bool)     // one derivation step
 	value  func(s any, nilIn bool) (reflect.Value, bool) // an input for a warm-up call on s
 	render func(any, error) string
 }
